@@ -2,7 +2,7 @@
 from __future__ import annotations
 
 import ast
-from typing import List, Optional, Set
+from typing import List, Optional, Set, Tuple
 
 from ..abc_model import AbcModel
 from ..cfg import CFG as Flow
@@ -26,6 +26,29 @@ RULES = {
 }
 NX_MUTATORS = {"add_edge", "remove_edge", "clear", "add_node", "remove_node", "add_edges_from",
                "remove_edges_from", "add_nodes_from", "remove_nodes_from", "update", "clear_edges"}
+
+
+def _orderable_key(keyfn: Optional[ast.AST]) -> Tuple[Optional[bool], str]:
+    """is every component of a sort key of an orderable kind?  True / False (names a component
+    that is not) / None (cannot tell)"""
+    if keyfn is None:
+        return False, "sorted without a key compares Edge tuples, i.e. nodes"
+    if not isinstance(keyfn, ast.Lambda):
+        return None, "sort key %s is not a lambda" % unparse(keyfn)[:40]
+    body = keyfn.body
+    comps = list(body.elts) if isinstance(body, ast.Tuple) else [body]
+    for c in comps:
+        p = attr_path(c)
+        if p and p[-1] in ("uuid", "address", "offset", "size", "value", "name", "int", "bytes", "hex"):
+            continue
+        if isinstance(c, ast.Constant):
+            continue
+        if any(isinstance(x, ast.Attribute) and x.attr == "label" for x in ast.walk(c)) and not any(
+                isinstance(x, ast.Attribute) and x.attr in ("value", "conditional", "direct") for x in ast.walk(c)):
+            return False, "the sort key orders by the edge label itself (%s): labels hold an Enum, and a " \
+                          "missing label is None — comparing them raises TypeError" % unparse(c)[:40]
+        return None, "sort key component %s" % unparse(c)[:40]
+    return True, ""
 
 
 def run(chk: Check) -> None:
@@ -364,6 +387,37 @@ def run(chk: Check) -> None:
                 len(calls[0].args) == 1 and attr_path(calls[0].args[0]) == (g.self_name,)
             chk.ob("R11.4", key + ":delegates", ok, g.loc(),
                    "%s must be self.ir.cfg.%s(self), got %s" % (key, meth, unparse(calls[0]) if calls else "none"), 3)
+            if ok:
+                # ... and hands the view's edges on as they are: wrappers that neither drop, add nor
+                # compare elements (iter/list/tuple) are fine; sorting is fine only by a key made of
+                # orderable parts (UUIDs, numbers, strings, enum values) — EdgeLabel holds an Enum,
+                # a label can be None: sorting by them raises for some edge sets
+                par = getattr(calls[0], "_parent", None)
+                cur: ast.AST = calls[0]
+                verdict: Optional[bool] = True
+                why = ""
+                while par is not None and not isinstance(par, (ast.Return, ast.stmt)):
+                    if isinstance(par, ast.Call) and cur in par.args and isinstance(par.func, ast.Name) \
+                            and par.func.id in ("iter", "list", "tuple"):
+                        pass
+                    elif isinstance(par, ast.Call) and cur in par.args and isinstance(par.func, ast.Name) \
+                            and par.func.id == "sorted":
+                        keyfn = next((k.value for k in par.keywords if k.arg == "key"), None)
+                        v_, why = _orderable_key(keyfn)
+                        if v_ is not True:
+                            verdict = v_
+                    elif isinstance(par, ast.YieldFrom) or (isinstance(par, ast.keyword)):
+                        pass
+                    else:
+                        verdict, why = None, "passed through %s" % unparse(par)[:50]
+                    if verdict is not True:
+                        break
+                    cur, par = par, getattr(par, "_parent", None)
+                if verdict is True and isinstance(par, ast.stmt) and not isinstance(par, (ast.Return, ast.Expr)):
+                    verdict, why = None, "bound by %s" % unparse(par)[:50]
+                chk.ob("R11.4", key + ":view-handed-on-unchanged", verdict is True, g.loc(),
+                       "%s must hand on the edges of self.ir.cfg.%s(self) as they are: %s" % (key, meth, why or "-"),
+                       2, undecided=verdict is None)
             fl = Flow(g.node)
             if calls:
                 cn = fl.node_of(calls[0])
